@@ -218,5 +218,5 @@ FLOORS = {
     ("S-SIB", "quick"): 108, ("S-PRUNE", "quick"): 32, ("M-CBORDER", "quick"): 37, ("M-SIZE", "quick"): 13, ("M-BAL", "quick"): 7,
     ("M-DIGEST", "quick"): 23, ("M-FREEZE", "quick"): 29, ("M-EMIT", "quick"): 13, ("M-PAR", "quick"): 8, ("M-MAPFREE", "quick"): 700,
     ("M-UNSAFE", "quick"): 700, ("M-SYM", "quick"): 3, ("M-UF", "quick"): 4, ("M-LEN", "quick"): 4, ("M-DIRTAINT", "quick"): 3,
-    ("M-FUNCDOM", "quick"): 2,
+    ("M-FUNCDOM", "quick"): 2, ("M-SHARE", "quick"): 14, ("S-NAV", "quick"): 12, ("S-LEAF", "quick"): 11,
 }
